@@ -356,8 +356,8 @@ func (e *Engine) appendSlice(s SliceV, add SliceV, elemT types.Type, g *Term, po
 		if newCap < ubL+ubK {
 			newCap = ubL + ubK
 		}
-		if newCap < 4 {
-			newCap = 4
+		if newCap < minGrowCap {
+			newCap = minGrowCap
 		}
 		nc := e.newArrayCell(elemT, newCap)
 		for i := 0; i < ubL; i++ {
@@ -389,3 +389,7 @@ func (e *Engine) appendSlice(s SliceV, add SliceV, elemT types.Type, g *Term, po
 	}
 	return iteV(fit, inPlace, grown)
 }
+
+// minGrowCap: a reallocating append allocates at least this capacity (the Go spec leaves growth to the
+// implementation; a generous allocator keeps later appends in place, which keeps slices single-array).
+const minGrowCap = 8
